@@ -95,7 +95,7 @@ func (s *st) push(client string, free bool) *pushed {
 	form.Set("redirect_uri", p.redirect)
 	variant := 0
 	if free {
-		variant = zz.Choice("push.variant", 7)
+		variant = zz.Choice("push.variant", 8)
 		switch variant {
 		case 1:
 			wrongSecret = true
@@ -139,7 +139,12 @@ func (s *st) push(client string, free bool) *pushed {
 	zz.Observe("push.err", world.ErrName(err))
 	if err == nil {
 		var resp fosite.PushedAuthorizeResponder
-		resp, err = s.w.Provider.NewPushedAuthorizeResponse(s.w.Ctx, ar, world.NewSession(""))
+		var sess fosite.Session = world.NewSession("")
+		if variant == 7 {
+			sess = nil // the application keeps nothing in the session of a pushed request
+			zz.Cover("push:without-session", true)
+		}
+		resp, err = s.w.Provider.NewPushedAuthorizeResponse(s.w.Ctx, ar, sess)
 		zz.Observe("push.resp.err", world.ErrName(err))
 		if err == nil {
 			p.uri = resp.GetRequestURI()
